@@ -61,7 +61,7 @@ package backend
 //@   ensures [pending] pending == rev && (rev == 0 || rev < 0x8000000000000000)
 
 //@ func (*backend).update(ctx, oldRevision, key, value, lease) (revision, err)
-//@   props C01 C02 C04
+//@   props C01 C02 C04 C09
 //@   requires wf_backend(b) && pending == 0 && !batch_open
 //@   modifies ghost.pending ghost.max_issued ghost.bw_n ghost.bw_kind ghost.bw_key ghost.bw_val ghost.bw_old ghost.bw_ttl ghost.commits ghost.last_batch ghost.last_err ghost.batch_open ghost.floor ghost.floor_set
 //@   ensures [dealt-is-returned] pending == revision
@@ -72,6 +72,7 @@ package backend
 //@   ensures [object-put] commits == old(commits)+1 ==> bw_kind[last_batch][1] == 3 && is_enc(bw_key[last_batch][1], key, revision) && bw_val[last_batch][1] == value
 //@   ensures [newer] commits == old(commits)+1 ==> revision > old(max_issued) && revision >= oldRevision
 //@   ensures [closed] !batch_open
+//@   ensures [unknown-outcome-is-returned] commits != old(commits) && err_is(last_err, storage.ErrUncertainResult) ==> err == last_err && !err_is(last_err, storage.ErrCASFailed) && last_err != nil
 
 //@ func (*backend).notify(ctx, key, val, revision, preRevision, valid, eventType, err)
 //@   props C04 C06
@@ -88,7 +89,7 @@ package backend
 //@   ensures [not-found-is-error] is_nil(val) && err == nil ==> false
 
 //@ func (*backend).create(ctx, key, value) (revision, err)
-//@   props C04 C17
+//@   props C04 C17 C09
 //@   requires wf_backend(b) && pending == 0 && !batch_open
 //@   requires [events-dir] events_dir_of(b.config.Prefix)
 //@   ensures [ttl-only-for-event-records] last_ttl != old(last_ttl) && last_ttl != 0 ==> has_prefix(key, events_dir)
@@ -97,12 +98,14 @@ package backend
 //@   ensures [dealt-is-returned] pending == revision
 //@   ensures [range] revision == 0 || revision < 0x8000000000000000
 //@   ensures [closed] !batch_open
+//@   ensures [unknown-outcome-is-returned] commits != old(commits) && err_is(last_err, storage.ErrUncertainResult) ==> err == last_err && !err_is(last_err, storage.ErrCASFailed) && last_err != nil
 
 //@ func (*backend).delete(ctx, oldRevision, key) (newRevision, old, err)
-//@   props C01 C02 C04
+//@   props C01 C02 C04 C09
 //@   requires wf_backend(b) && pending == 0 && !batch_open
 //@   modifies ghost.pending ghost.max_issued ghost.bw_n ghost.bw_kind ghost.bw_key ghost.bw_val ghost.bw_old ghost.bw_ttl ghost.commits ghost.last_batch ghost.last_err ghost.batch_open ghost.floor ghost.floor_set
 //@   ensures [dealt-is-returned] pending == newRevision
+//@   ensures [unknown-outcome-is-returned] commits != old(commits) && err_is(last_err, storage.ErrUncertainResult) ==> err == last_err && !err_is(last_err, storage.ErrCASFailed) && last_err != nil
 //@   ensures [at-most-one-batch] commits == old(commits) || (commits == old(commits)+1 && last_err == err && bw_n[last_batch] == 2)
 //@   ensures [no-batch-means-error] commits == old(commits) ==> err != nil
 //@   ensures [stale-expectation-writes-nothing] oldRevision > 0 && old.Revision != 0 && oldRevision != old.Revision ==> commits == old(commits)
@@ -114,21 +117,24 @@ package backend
 //@   ensures [closed] !batch_open
 
 //@ func (*backend).Create(ctx, put) (resp, err)
-//@   props C04
+//@   props C04 C09
+//@   ensures [unknown-outcome-is-reported-as-an-error] commits != old(commits) && err_is(last_err, storage.ErrUncertainResult) ==> resp == nil && err != nil
 //@   requires wf_backend(b) && put != nil && pending == 0 && !batch_open
 //@   requires [events-dir] events_dir_of(b.config.Prefix)
 //@   modifies ghost.last_ttl ghost.pending ghost.max_issued ghost.bw_n ghost.bw_kind ghost.bw_key ghost.bw_val ghost.bw_old ghost.bw_ttl ghost.commits ghost.last_batch ghost.last_err ghost.batch_open ghost.floor ghost.floor_set []atomic.Value
 //@   ensures [every-dealt-revision-reported] pending == 0
 
 //@ func (*backend).Update(ctx, r) (resp, err)
-//@   props C04
+//@   props C04 C09
+//@   ensures [unknown-outcome-is-reported-as-an-error] commits != old(commits) && err_is(last_err, storage.ErrUncertainResult) ==> resp == nil && err != nil
 //@   requires wf_backend(b) && r != nil && r.Kv != nil && pending == 0 && !batch_open
 //@   requires [events-dir] events_dir_of(b.config.Prefix)
 //@   modifies ghost.last_ttl ghost.pending ghost.max_issued ghost.bw_n ghost.bw_kind ghost.bw_key ghost.bw_val ghost.bw_old ghost.bw_ttl ghost.commits ghost.last_batch ghost.last_err ghost.batch_open ghost.floor ghost.floor_set []atomic.Value
 //@   ensures [every-dealt-revision-reported] pending == 0
 
 //@ func (*backend).Delete(ctx, r) (resp, err)
-//@   props C04
+//@   props C04 C09
+//@   ensures [unknown-outcome-is-reported-as-an-error] commits != old(commits) && err_is(last_err, storage.ErrUncertainResult) ==> resp == nil && err != nil
 //@   requires wf_backend(b) && r != nil && pending == 0 && !batch_open
 //@   modifies ghost.pending ghost.max_issued ghost.bw_n ghost.bw_kind ghost.bw_key ghost.bw_val ghost.bw_old ghost.bw_ttl ghost.commits ghost.last_batch ghost.last_err ghost.batch_open ghost.floor ghost.floor_set []atomic.Value
 //@   ensures [every-dealt-revision-reported] pending == 0
@@ -172,12 +178,13 @@ package backend
 //@   loop 0 invariant [borders] forall(j, 0 <= j && j < len(borders), true)
 
 //@ func (*backend).Compact(ctx, revision) (resp, err)
-//@   props C08
+//@   props C08 C09 C07
 //@   nosafety
 //@   requires wf_backend(b) && b.scanner != nil && b.asyncFifoRetry != nil && !batch_open
 //@   modifies inferred:(*backend).Compact ghost.bw_n ghost.bw_kind ghost.bw_key ghost.bw_val ghost.bw_old ghost.bw_ttl ghost.commits ghost.last_batch ghost.last_err ghost.batch_open ghost.floor ghost.floor_set
 //@   ensures [floor-monotone] old(floor_set) ==> floor_set && floor >= old(floor)
 //@   ensures [accepted] err == nil ==> resp != nil && floor_set && floor >= resp.Header.Revision
+//@   ensures [never-past-an-unresolved-write] min_uncertain != 0 ==> resp != nil && resp.Header.Revision < min_uncertain
 
 // ---- C13: advertised partitions ----
 // Clients stream [k_i, k_i+1) piece by piece and the scanner never adjusts the outer borders
